@@ -503,6 +503,25 @@ func ruleSkipImpliesHook(c *eng.Ctx) {
 				hooks.AddInstrs(call.(ssa.Instruction))
 			}
 		}
+		// an item may also be dropped on the edge on which save's not-exist filter (an
+		// error→error closure whose shape is checked below: nil only for os.ErrNotExist) says nil
+		for _, call := range eng.Calls(fn) {
+			if call.Common().IsInvoke() || call.Value() == nil {
+				continue
+			}
+			for _, org := range eng.Origins(call.Common().Value, nil) {
+				var lit *ssa.Function
+				if mc, ok := org.(*ssa.MakeClosure); ok {
+					lit, _ = mc.Fn.(*ssa.Function)
+				} else if f, ok := org.(*ssa.Function); ok {
+					lit = f
+				}
+				if lit == nil || lit.Parent() == nil || !isNotExistFilter(c, lit) {
+					continue
+				}
+				hooks.AddEdges(eng.NilEdges(fn, eng.SameAs(call.Value()), true)...)
+			}
+		}
 		for _, call := range eng.Calls(fn) {
 			if !sourceCall(c, call) || isHook(fn, call) {
 				continue
@@ -617,6 +636,31 @@ func ruleSkipImpliesHook(c *eng.Ctx) {
 					}
 				}
 			}
+			// the same holds for the open that follows the lstat (genuine defect, fixed: a file
+			// or directory that vanished in that window was reported and the backup exited 3)
+			for _, call := range eng.Calls(save) {
+				if !call.Common().IsInvoke() || call.Common().Method.Name() != "MakeReadable" {
+					continue
+				}
+				for _, e := range eng.FailureEdges(call) {
+					for _, h := range hookCalls {
+						if eng.FindPath(eng.EdgeStart(save, e), h.(ssa.Instruction), nil) == nil {
+							continue
+						}
+						c.MustPass(rule, "Archiver.save:reopen-error→not-exist-filter→hook", eng.EdgeStart(save, e), h.(ssa.Instruction), eng.CallCut(filterCalls...), "the error went through the not-exist filter")
+					}
+				}
+			}
+			for _, call := range c.P.CallsTo(save, pkgArch+".(*Archiver).saveDir") {
+				for _, e := range eng.FailureEdges(call) {
+					for _, r := range eng.Returns(save) {
+						if eng.FindPath(eng.EdgeStart(save, e), r, nil) == nil {
+							continue
+						}
+						c.MustPass(rule, "Archiver.save:directory-open-error→not-exist-filter", eng.EdgeStart(save, e), r, eng.CallCut(filterCalls...), "the error went through the not-exist filter")
+					}
+				}
+			}
 			c.Check(vanishedOK, rule, "Archiver.save:vanished-files-are-not-errors", lit.Pos(), "the filter tests its argument with errors.Is(err, os.ErrNotExist) (identity comparison never matches the *PathError the file system returns) and yields nil whenever that holds")
 			for _, r := range eng.Returns(lit) {
 				v := eng.RetVal(r, 0)
@@ -667,4 +711,20 @@ func ruleSkipImpliesHook(c *eng.Ctx) {
 			c.Check(eng.LoadsField(last, c.P.Field(pkgArch+".Archiver", "Error")), rule, c.P.FnName(s.Fn)+":treeSaver-gets-Archiver.Error", s.Call.Pos(), "the tree saver's error function is Archiver.Error")
 		}
 	}
+}
+
+// isNotExistFilter: a function literal error→error that tests its argument with
+// errors.Is(err, os.ErrNotExist). (That it yields nil for nothing else is the obligation
+// only-vanished-files-are-dropped-silently.)
+func isNotExistFilter(c *eng.Ctx, lit *ssa.Function) bool {
+	sig := lit.Signature
+	if sig.Params().Len() != 1 || sig.Results().Len() != 1 || !eng.IsErrorType(sig.Params().At(0).Type()) || !eng.IsErrorType(sig.Results().At(0).Type()) {
+		return false
+	}
+	for _, call := range eng.Calls(lit) {
+		if nm := c.P.CalleeName(call); (nm == "internal/errors.Is" || nm == "errors.Is") && isGlobalLoad(c, eng.Arg(call, 1), "os.ErrNotExist") {
+			return true
+		}
+	}
+	return false
 }
